@@ -328,7 +328,8 @@ def random_unit(draw, ctx):
 def defect(draw, units, ctx):
     """Inject one defect (mutates and returns units, name)."""
     kind = draw(st.sampled_from(["swap", "delete", "dup", "insert", "next", "prev", "picnum", "version", "level", "variant",
-                                 "alien", "fragshape", "drop_eos", "next_zero_nonpic"]))
+                                 "alien", "fragshape", "drop_eos", "next_zero_nonpic", "interleave_pic", "restart_frag",
+                                 "interleave_pic", "restart_frag"]))
     n = len(units)
     i = draw(st.integers(0, n - 1))
     j = draw(st.integers(0, n - 1))
@@ -390,10 +391,32 @@ def defect(draw, units, ctx):
         if cands:
             x = cands[draw(st.integers(0, len(cands) - 1))]
             x["count"], x["start"] = draw(st.sampled_from(FRAG_SHAPES))
+    elif kind in ("interleave_pic", "restart_frag"):
+        cands = [k for k, x in enumerate(units) if x["kind"] == "FN"]
+        if cands:
+            k = cands[draw(st.integers(0, len(cands) - 1))]
+            prof = units[k]["profile"]
+            units.insert(k, U("PIC" if kind == "interleave_pic" else "F0", profile=prof, picnum=0))
     elif kind == "drop_eos":
         if units and units[-1]["kind"] == "EOS":
             units.pop()
     return units, kind
+
+
+def renumber(units, start=0):
+    """Give pictures consistent numbers (consecutive per sequence; continuation fragments repeat)."""
+    num = start
+    last = start
+    for u in units:
+        if u["kind"] in ("PIC", "F0"):
+            u["picnum"] = num % (1 << 32)
+            last = u["picnum"]
+            num += 1
+        elif u["kind"] == "FN":
+            u["picnum"] = last
+        elif u["kind"] == "EOS":
+            pass
+    return units
 
 
 @st.composite
@@ -407,14 +430,21 @@ def histories(draw):
         if mode == "skeleton":
             seq = resolve_markers(draw(valid_sequence(ctx)))
             nd = draw(st.sampled_from([0, 0, 0, 1, 1, 2]))
+            structural = False
             for _ in range(nd):
                 if not seq:
                     break
                 seq, name = draw(defect(seq, ctx))
                 defects.append(name)
+                structural = structural or name in ("swap", "delete", "dup", "insert", "interleave_pic", "restart_frag")
             seq = resolve_markers(seq)
+            if structural and draw(st.integers(0, 2)) != 0:
+                # keep the numbering consistent so that the verdict hinges on the structural rule
+                seq = renumber(seq, draw(st.sampled_from([0, 2, (1 << 32) - 2])))
         else:
             seq = [draw(random_unit(ctx)) for _ in range(draw(st.integers(1, 8)))]
+            if draw(st.integers(0, 3)) != 0:
+                seq = renumber(seq, draw(st.sampled_from([0, 2, 4, (1 << 32) - 2])))
             if draw(st.booleans()) and seq[0]["kind"] != "SH":
                 seq.insert(0, U("SH", profile=ctx["profile"], pcm=ctx["pcm"], version=draw(st.sampled_from([1, 2, 3])),
                                 level=ctx["level"], variant=0))
